@@ -80,8 +80,24 @@ def soup(rng):
     return out or ["a0"]
 
 
+ASSIGN = ["=", ":=", "+=", "-=", "*=", "/=", "%=", "<<=", ">>=", "&=", "^=", "|="]
+
+
 def model_line(ts):
-    return " ".join(w if w in "()?:" or w.startswith("a") else "s%d" % sym_id(w) for w in ts)
+    return " ".join(w if w in ("(", ")", "?", ":") or w.startswith("a") else ("e%d" if w in ASSIGN else "s%d") % sym_id(w) for w in ts)
+
+
+def gen_chain(rng, depth):
+    """e1 <asg> e2 <asg> … en: (tokens, expected normal form) — assignments nest to the right"""
+    es = [gen_tree(rng, depth) for _ in range(rng.range(2, 4))]
+    ops = [rng.choice(ASSIGN) for _ in es[1:]]
+    ts = toks(es[0])
+    for o, e in zip(ops, es[1:]):
+        ts += [o] + toks(e)
+    want = show(es[-1])
+    for o, e in zip(reversed(ops), reversed(es[:-1])):
+        want = "(e %d %s %s)" % (sym_id(o), show(e), want)
+    return ts, "ok " + want
 
 
 def text(ts):
@@ -165,11 +181,19 @@ def ref_parse(ts):
             else:
                 return left
 
+    def equation():
+        left = show(expr(0))
+        if peek() in ASSIGN:
+            o = ts[pos[0]]
+            pos[0] += 1
+            return "(e %d %s %s)" % (sym_id(o), left, equation())
+        return left
+
     try:
-        e = expr(0)
+        e = equation()
     except Bad:
         return "error"
-    return "ok " + show(e) if pos[0] == len(ts) else "error"
+    return "ok " + e if pos[0] == len(ts) else "error"
 
 
 # ---- the real parser's generic dump -> the same normal form
@@ -223,6 +247,8 @@ def canon_impl(o):
             if NODE_OF.get(txt, "Binary") != kind:
                 return "(wrong-node-kind %s for %s)" % (kind, txt)
             return "(b %d %s %s)" % (sym_id(txt), conv(kids[0]), conv(kids[1]))
+        if kind == "Equation" and len(kids) == 2 and txt in ASSIGN:
+            return "(e %d %s %s)" % (sym_id(txt), conv(kids[0]), conv(kids[1]))
         if kind == "If" and len(kids) == 3:
             return "(t %s %s %s)" % tuple(conv(k) for k in kids)
         return "(?%s/%d)" % (head, len(kids))
